@@ -146,6 +146,15 @@ def replay_conformance(case):
     return [v['msg'] for v in st.get('viol', [])]
 
 
+def _must_be_well_typed(prog, src):
+    """Before a rejection is reported as a violation: the reference judgement must accept the program; if it does
+    not, the generator is wrong (harness error), not the compiler."""
+    try:
+        rtypes.elaborate(prog)
+    except (rtypes.Reject, rtypes.Unspecified) as e:
+        raise HarnessError(f'generator produced a program the reference typechecker does not accept: {e}\n{src}')
+
+
 def run_program(st, src, argvs, Ws, tag, S=hid.GEN_STACK, unchecked=False, prog=None):
     """Compile once per word size, run every argv, compare with the reference.
     Returns (had_violation, cut_off) where cut_off means some reference run ended in an error
@@ -159,6 +168,7 @@ def run_program(st, src, argvs, Ws, tag, S=hid.GEN_STACK, unchecked=False, prog=
         lines, err = compile_case(src, W, S, unchecked)
         if err:
             st.add('evaluations')
+            _must_be_well_typed(prog, src)
             st.viol(f'{tag}: well-typed program not compiled: {err[0]}: {err[1]}',
                     {'kind': 'conformance', 'src': src, 'prog': repr(prog), 'argv': list(argvs[0]), 'W': W, 'S': S,
                      'unchecked': unchecked, 'tag': tag})
